@@ -183,8 +183,24 @@ def agree(case: str, m: str, out: str) -> bool:
     return True
 
 
-def monitor(case: str, out: str) -> list[str]:
+def reentry_failures(out: str) -> set[str]:
+    """a second `with` on a scope / update object that has been left: refused or not, the surrounding context afterwards
+    is the context before"""
     fails = set()
+    pre: dict[tuple[str, str], str] = {}
+    for e in sp.events(out):
+        if len(e) >= 4 and e[1] == "repre":
+            pre[(e[0], e[2])] = e[3]
+        elif len(e) >= 4 and e[1] == "repost" and (e[0], e[2]) in pre:
+            a, b = pre.pop((e[0], e[2])).split("/"), e[3].split("/")
+            which = [n for n, x, y in zip(("state", "metrics-scope", "task-group"), a, b) if x != y]
+            if which:
+                fails.add("context.not-restored-after-second-use:" + "+".join(which))
+    return fails
+
+
+def monitor(case: str, out: str) -> list[str]:
+    fails = reentry_failures(out)
     for f in block_facts(case, out):
         if f["pre"] != f["post"]:
             a, b = f["pre"].split("/"), f["post"].split("/")
